@@ -71,6 +71,6 @@ def rqBinE (xk yk w h d0 d1 x : Expr) : Expr :=
   let th := (x - xk) / w
   yk + h * (s * (th * th) + d0 * (th * (1 - th))) / (s + (d0 + d1 - 2 * s) * (th * (1 - th)))
 
-#eval evalG floatOps (fun i => #[0.2, 0.1, 0.5, 0.4, 1.3, 0.7, 0.45][i]!) (rqBinE (.var 0) (.var 1) (.var 2) (.var 3) (.var 4) (.var 5) (.var 6))
-#eval evalG (dualOps floatOps) (fun i => (#[0.2, 0.1, 0.5, 0.4, 1.3, 0.7, 0.45][i]!, if i == 6 then 1.0 else 0.0)) (rqBinE (.var 0) (.var 1) (.var 2) (.var 3) (.var 4) (.var 5) (.var 6))
+
+
 
